@@ -123,7 +123,7 @@ Definition spec_request (slug_of : upstream -> str) (cfg : list upstream) (q : r
   | Some u =>
       let t := spec_target (q_host q) u in
       let fwd user := {| r_kind := KForward; r_target := Some t;
-                         r_fwd_host := Some (if u_preserve u then q_host q else t);
+                         r_fwd_host := Some (if u_preserve u then preserved_host (q_host q) t else t);
                          r_user := user; r_cookie := CkNone; r_slug := None |} in
       if existsb (fun p => re_match p (q_path q)) (u_skip u) then fwd None
       else match q_cookie q with
